@@ -76,7 +76,7 @@ def rel(a, b):
     return float(np.max(np.abs(a - b) / (np.abs(a) + np.abs(b) + 1e-300) * 2))
 
 
-def compare(ref, oth, s, cfg, viol, tag, pot1):
+def compare(ref, oth, s, cfg, viol, tag, pot1, pot_s):
     """Stage-wise comparison; returns dict of observed differences."""
     obs = {}
     aln = abs(ref["alN"])
@@ -103,10 +103,24 @@ def compare(ref, oth, s, cfg, viol, tag, pot1):
                  - float(pot1.V_code(ref[ph], ref["Tn"])[0])) / dV
         obs[ph] = d
         obs[ph + "_excess"] = ex
-        if d > 1e-2:
-            fail("phases", ph, d, 1e-2)
-        elif ex > 1e-5:
-            fail("phases", ph + " (free-energy excess / DeltaV)", ex, 1e-5)
+        if d > 1e-2 or ex > 1e-5:
+            # mechanism: scipy's BFGS stops on an *absolute* gradient norm (gtol, default
+            # 1e-5, or the tol handed down by WallGo).  In the partner's units the
+            # gradient at the location it returned is already below that number although
+            # the location is not the minimum to any relative accuracy.
+            g = np.linalg.norm(pot_s.grad_phys(pot_s.to_phys(np.atleast_2d(oth[ph])),
+                                               oth["Tn"]))
+            if g < 1.5e-5:
+                viol.append({"mech": "not-covariant:minimiser-absolute-gradient-tolerance",
+                             "msg": f"{tag}: at unit factor {s:g} the {ph} returned by "
+                             f"validatePhaseInput is off by {d:.2e} of the field scale (free-"
+                             f"energy excess {ex:.2e} of DeltaV) although |grad V| there is "
+                             f"{g:.1e} < scipy's absolute gtol", "data": {"factor": s}})
+                return obs, True
+            if d > 1e-2:
+                fail("phases", ph, d, 1e-2)
+            else:
+                fail("phases", ph + " (free-energy excess / DeltaV)", ex, 1e-5)
     # --- traced ranges (dimension 1) and flags
     for k in ("H", "L"):
         for j in (0, 1):
@@ -131,11 +145,23 @@ def compare(ref, oth, s, cfg, viol, tag, pot1):
             fail("eos", q + f"/s^{p}", d, K * ptol)
     # --- hydrodynamics
     hyd_tol = K * (rtol + ptol / max(aln, 1e-6))
-    for q in ("vJ", "fastestDeflag"):
-        d = abs(ref[q] - oth[q])
-        obs[q] = d
+    if ref["fastestDeflag"] == ref["vJ"] and oth["fastestDeflag"] == oth["vJ"]:
+        d = abs(ref["vJ"] - oth["vJ"])
+        obs["vJ"] = d
         if d > hyd_tol:
-            fail("hydro", q, d, hyd_tol)
+            fail("hydro", "vJ", d, hyd_tol)
+    else:
+        obs["vJ_beyond_range_recorded"] = abs(ref["vJ"] - oth["vJ"])
+    if ref["fastestDeflag"] == ref["vJ"] or oth["fastestDeflag"] == oth["vJ"]:
+        # window not cut by a phase's range in at least one run: must agree
+        d = abs(ref["fastestDeflag"] - oth["fastestDeflag"])
+        obs["fastestDeflag"] = d
+        if d > hyd_tol:
+            fail("hydro", "fastestDeflag", d, hyd_tol)
+    else:
+        # cut by the end of a tabulated range: root of T(v)=Tmax on a flat T(v); its
+        # conditioning is C06's subject.  Recorded only (P_margin).
+        obs["fastestDeflag_cut_recorded"] = abs(ref["fastestDeflag"] - oth["fastestDeflag"])
     d = abs(ref["vMin"] - oth["vMin"])
     obs["vMin"] = d
     if d > max(hyd_tol, 1e-4):
@@ -161,11 +187,13 @@ def compare(ref, oth, s, cfg, viol, tag, pot1):
         if (ref["vw"] is None) != (oth["vw"] is None) or ref["solutionType"] != oth["solutionType"]:
             fail("solve", "outcome", 1.0, 0.0,
                  f"({ref['solutionType']}, v={ref['vw']} vs {oth['solutionType']}, v={oth['vw']})")
+            obs["_solve_diverged_at"] = max(ref["vMin"], 1e-3)
         elif ref["vw"] is not None and ref["success"] and oth["success"]:
             d = abs(ref["vw"] - oth["vw"])
             obs["vw"] = d
             if d > 3 * cfg["errTol"]:
                 fail("solve", "wallVelocity", d, 3 * cfg["errTol"])
+                obs["_solve_diverged_at"] = 0.5 * (ref["vw"] + oth["vw"])
             dw = rel(ref["widths"] * ref["Tn"], oth["widths"] * oth["Tn"])
             obs["widths"] = dw
             if dw > TOL_WIDTH:
@@ -185,7 +213,7 @@ def compare(ref, oth, s, cfg, viol, tag, pot1):
             obs["fieldProfiles"] = d
             if d > 5e-2:
                 fail("solve", "fieldProfiles/s", d, 5e-2)
-    return obs
+    return obs, False
 
 
 def run_case(case):
@@ -220,11 +248,18 @@ def run_case(case):
                          + " while the reference run succeeded", "data": {"factor": s}})
             classes.append("partner-raised")
             continue
-        oth.pop("_pot", None)
+        pot_s = oth.pop("_pot", None)
         if not oth["p_trace"]:
             # the same model traced fine at s=1: tracing that depends on units
             mech = "not-covariant:trace-leaves-branch"
-            if oth.get("phases_equal_guesses") and not ref.get("phases_equal_guesses"):
+            gmax = max(np.linalg.norm(pot_s.grad_phys(pot_s.to_phys(np.atleast_2d(oth[ph])),
+                                                      oth["Tn"]))
+                       for ph in ("phase_high", "phase_low"))
+            fs = pot_s.field_scale(oth["Tn"])
+            off = max(float(np.max(np.abs(oth[ph] / s - ref[ph]))) for ph in
+                      ("phase_high", "phase_low")) / (fs / s)
+            if (oth.get("phases_equal_guesses") and not ref.get("phases_equal_guesses")) or \
+                    (gmax < 1.5e-5 and off > 1e-4):
                 # in these units the minimiser returned the input guesses untouched: the
                 # gradient tolerance scipy derives from tol is absolute (gtol), while the
                 # gradients themselves scale like s^3
@@ -236,7 +271,13 @@ def run_case(case):
                          "data": {"factor": s}})
             classes.append("partner-off-branch")
             continue
-        o = compare(ref, oth, float(s), cfg, viol, tag, pot1)
+        nv = len(viol)
+        o, units_mech = compare(ref, oth, float(s), cfg, viol, tag, pot1, pot_s)
+        from wgverif.checks.C08 import reclassify_solve
+        reclassify_solve(viol, nv, o, {**spec, "s": 1.0}, cfg, mon)
+        if units_mech:
+            classes.append("partner-minimiser-not-converged")
+            continue
         mon["pairs_compared"] += 1
         rows.append({"factor": s, **o})
         nontriv = (case["solve"] and ref.get("vw") is not None) or (0 < ref["vLTE"] < 1)
